@@ -24,7 +24,7 @@ GUARD = "CARQUET_VERIF"
 _key = "repo" if str(REPO) == "/repo" else "alt_" + hashlib.sha1(str(REPO).encode()).hexdigest()[:10]
 COV = os.environ.get("VERIF_COV") == "1"      # development-time coverage audit (tools/covaudit.py): gcov-instrumented build,
 if COV:                                       # own build directory, evidence kept out of evidence/
-    _key += "_cov"
+    _key += "_cov" + os.environ.get("VERIF_COV_TAG", "")     # one build directory per audited check: counters are not shared
 BUILD = VERIF / "build" / _key
 COQ = VERIF / "coq"
 NCPU = os.cpu_count() or 4
